@@ -58,6 +58,6 @@ m={
  "not_applicable": na,
  "notes": "Fix commits in /repo (message prefix 'fix:') are listed in known_findings.json as fixed entries; there are no open findings. ./check <Cxx> --replay <file> re-executes a saved case."
 }
-if not na: del m["not_applicable"]
+# all 19 properties are claimed: the list is kept, empty, so that a reader sees it was considered
 json.dump(m, open("/verif/MANIFEST.json","w"), indent=1)
 print("claimed", len(checks), "n/a", len(na))
